@@ -324,6 +324,48 @@ def _task_messages(_):
     return res
 
 
+def _task_scale(task):
+    """element counts, string and signature lengths around one-byte,
+    page-size and two-byte limits, both directions against the reference"""
+    from mcx import scale
+    from mcx.checks import c01
+    quick, kind = task
+    res = core.Result()
+    if kind in ('g', 'v-long-sig'):
+        ns = [n for n in (126, 127, 128, 129, 130, 191, 192, 200, 254, 255)]
+    else:
+        ns = scale.ladder(8193 if quick else 65537)
+    for n in ns:
+        sig, refvals = scale_case(kind, n)
+        ts = R.parse_sig(sig)
+        res.count('states')
+        res.count('nontrivial')
+        res.count('scale_cases')
+        for le in (True, False):
+            for off in (0, 3):
+                r0 = core.Result()
+                encode_case(r0, sig, ts, refvals, 'list', le, off)
+                decode_case(r0, sig, ts, refvals, le, off)
+                for s, v in r0.violations.items():
+                    res.violation(s[:60] + '/n=%d' % n, v['what'][:300]
+                                  + '...', {'scale': [kind, n, le, off]},
+                                  size=n)
+                for k, c in r0.counts.items():
+                    if k != 'violating_cases':
+                        res.count(k, c)
+    return res
+
+
+def scale_case(kind, n):
+    from mcx.checks import c01
+    if kind == 'g':
+        return 'gy', ['i' * n, 5]
+    if kind == 'v-long-sig':
+        return 'v', [Var('(' + 'y' * (n - 2) + ')',
+                         [i % 256 for i in range(n - 2)])]
+    return c01.scale_values(kind, n)
+
+
 def run(ctx):
     Kf, Kr = (3, 4) if ctx.quick else (4, 5)
     ctx.rule = (
@@ -347,9 +389,19 @@ def run(ctx):
     ctx.map(_task, CS.partition(Kf, Kr, max(ctx.jobs * 4, 1)))
     ctx.map(_task_special, [0])
     ctx.map(_task_messages, [0])
+    from mcx.checks import c01
+    ctx.map(_task_scale, [(ctx.quick, k) for k in
+                          c01.SCALE_KINDS + ['g', 'v-long-sig']])
 
 
 def replay(data):
+    if 'scale' in data:
+        res = core.Result()
+        kind, n, le, off = data['scale']
+        sig, refvals = scale_case(kind, n)
+        encode_case(res, sig, R.parse_sig(sig), refvals, 'list', le, off)
+        decode_case(res, sig, R.parse_sig(sig), refvals, le, off)
+        return [(s, v['what'][:300]) for s, v in res.violations.items()]
     res = core.Result()
     if data['dir'] == 'message':
         res = _task_messages(0)
